@@ -87,6 +87,28 @@ def main():
         nt = (n, fs, lnum) if (not c["err"] and len(c["win"]) >= 2) else None
         run.case(nt, sample=dict(n=n, fs=fs, window_length_s=L, k=c["k"], windows=c["win"][:4]) if nt and fs in (75, 300) and len(run.samples) < 3 else None)
 
+    # window lengths a hair below / above a whole number of intervals with a LARGE k (k = whole intervals in L, exact arithmetic:
+    # 59.9995 s at 100 Hz holds 5999 intervals, not 6000) - Window(j) of Split.tla evaluated with Fractions
+    for n, fs, L in ((24001, 100, Fraction(599995, 10000)), (24001, 100, Fraction(600005, 10000)), (9001, 75, Fraction(299999, 10000)),
+                     (20001, 200, Fraction(999995, 100000)), (18001, 100, Fraction(60)), (13501, 75, Fraction(30))):
+        k = (L * fs).numerator // (L * fs).denominator
+        nw = n // k
+        want = [(j * k, k + 1 if j * k + k + 1 <= n else n - j * k) for j in range(nw)]
+        ramp = np.arange(n, dtype=float)
+        tsr = h.TimeSeries(ramp, 1.0 / fs)
+        rec = h.SeismicRecording3C(h.TimeSeries(ramp, 1.0 / fs), h.TimeSeries(ramp, 1.0 / fs), h.TimeSeries(ramp, 1.0 / fs))
+        st = h.HvsrPreProcessingSettings(orient_to_degrees_from_north=None, filter_corner_frequencies_in_hz=[None, None], window_length_in_seconds=float(L), detrend=None)
+        for what, wins in (("TimeSeries.split", lambda: [(int(w.amplitude[0]), len(w.amplitude)) for w in tsr.split(float(L))]),
+                           ("SeismicRecording3C.split", lambda: [(int(w.vt.amplitude[0]), len(w.vt.amplitude)) for w in rec.split(float(L))]),
+                           ("preprocess", lambda: [(int(w.ew.amplitude[0]), len(w.ew.amplitude)) for w in h.preprocess([copy.deepcopy(rec)], st)])):
+            try:
+                got = wins()
+            except Exception as e:
+                got = f"{type(e).__name__}: {e}"
+            if got != want:
+                run.violation(f"split:{what}:large-k", f"{what}: n={n} fs={fs} window={float(L)} s holds k={k} whole intervals: windows (start, length) "
+                              f"{got[:3] if isinstance(got, list) else got}..., expected {want[:3]}... ({len(want)})", dict(kind="split-large-k", n=n, fs=fs, L=float(L)))
+        run.case(("split-large-k", n, fs, float(L)))
     order_checks(run, h)
     return run.finish(
         rule="every (N, sampling rate, window length on the half-interval lattice) case of spec/Split.tla on TimeSeries.split "
